@@ -69,11 +69,11 @@ structure Cfg where
   whose last byte is not "\n" it first writes "\n". Probed on the real `updateFile` (`vfE8ProbeSealsTail`) and read
   off the regenerated skeleton (`Nsq.Tie.ToolsToFile.updateFile_known_shapes`). -/
   sealsTail      : Bool := false
-  /-- follow-up F47b (`fixes/F47b_seal_unreadable_file.patch`): when `sealTornTail` cannot READ the last byte of the
+  /-- follow-up F47b (/repo 73f7348, committed): when `sealTornTail` cannot READ the last byte of the
   existing file (`os.Open` for reading or `ReadAt` fails: a write-only file, drop-box permissions) it logs a warning and
-  appends UNSEALED, as before F47. `false` = the committed F47 (/repo efaf20c): that read error is returned and
+  appends UNSEALED, as before F47. `false` = F47 alone (/repo efaf20c): that read error is returned and
   `updateFile` takes `os.Exit(1)`. Only meaningful with `sealsTail`. Probed on the real `updateFile`
-  (`vfE8ProbeSealReadWarns`) and read off the regenerated skeleton (`Nsq.Tie.ToolsToFile.sealTornTail_known_shapes`). -/
+  (`vfE8ProbeSealReadWarns`) and read off the regenerated skeleton (`Nsq.Tie.ToolsToFile.tree_seal_read_warns`: `true`). -/
   sealReadWarns  : Bool := false
 deriving DecidableEq, Repr
 
